@@ -355,6 +355,28 @@ pub fn migration(seed: u64, p: usize, q: usize) -> Vec<(Kv, Result<Vec<u8>, Stri
     .unwrap_or_default()
 }
 
+/// all builds of a few history scenarios (series on one thread + migrations), labelled; shared by the checks that judge built bytes
+pub fn history_builds(seed: u64, nseries: usize, per_series: usize, nmigrations: usize) -> Vec<(String, Kv, Result<Vec<u8>, String>)> {
+    let mut out = vec![];
+    let series: Vec<Vec<(Kv, Result<Vec<u8>, String>)>> = std::thread::scope(|sc| {
+        let hs: Vec<_> = (0..nseries).map(|i| sc.spawn(move || series_on_one_thread(seed * 1000 + i as u64, per_series))).collect();
+        hs.into_iter().map(|h| h.join().unwrap_or_default()).collect()
+    });
+    for (si, s) in series.into_iter().enumerate() {
+        let n = s.len();
+        for (bi, (kv, res)) in s.into_iter().enumerate() {
+            out.push((format!("build #{} of series {} ({} small builds on one thread, every 7th builder abandoned)", bi, si, n), kv, res));
+        }
+    }
+    for m in 0..nmigrations {
+        let (p, q) = (m % 7, 1 + (m / 7) % 9);
+        for (bi, (kv, res)) in migration(seed * 7919 + m as u64, p, q).into_iter().enumerate() {
+            out.push((format!("build #{} of a migration scenario (thread P: {} builds, then a half-filled builder moves to a fresh thread Q, which finishes it and builds {} more)", bi, p, q), kv, res));
+        }
+    }
+    out
+}
+
 /// HISTORY for the thread that is about to run judged operations: none of the properties allows an operation to depend on what the
 /// thread (or process) did before, so the monitors interleave their judged work with unrelated library use whose traces a
 /// stateful implementation (thread-locals, statics, pools, caches keyed by address) would carry over: builders abandoned after a
